@@ -238,6 +238,9 @@ def html_classify(c, s, call):
         return 'ATTR'
     if name == 'push_tokens' and call.args:
         a = src_of(call.args[0])
+        b = c.binding(s, a) if isinstance(call.args[0], ast.Name) else None
+        if b is not None and b[0] == 'alias':
+            a = b[1]            # a local that stands for node.value / caret on this path
         if a == 'node.value':
             return 'VALUE'
         if a == 'caret':
@@ -277,7 +280,9 @@ def path_emit_html(p, res):
     c.on_call = on_call
     fl = explore(p, f, c, normal=emitting_helper(html_classify, c))
     emit(res, 'PATH-EMIT-HTML', f, c)
-    pat = re.compile(r'^(CBEFORE )?OPEN( ATTR)? (SELFCLOSE|GT SNIPPET CLOSE( CAFTER)?|GT SNIPPET( VALUE)? CHILDREN( CARET)? CLOSE( CAFTER)?)$')
+    # the caret is only emitted where node.children is known to be empty (checked at the event), so its order relative to the
+    # (then empty) children is immaterial
+    pat = re.compile(r'^(CBEFORE )?OPEN( ATTR)? (SELFCLOSE|GT SNIPPET CLOSE( CAFTER)?|GT SNIPPET( VALUE)? (CHILDREN( CARET)?|CARET CHILDREN) CLOSE( CAFTER)?)$')
     n_open = 0
     seen_flat = set()
     for seq, s in c.exits:
@@ -290,7 +295,9 @@ def path_emit_html(p, res):
             continue
         n_open += 1
         flat = ' '.join(seq)
-        if not pat.match(flat):
+        if not pat.match(flat) and any(e.endswith('?') for e in seq):
+            res.undecided('emission order: ' + flat, 'an emission whose content cannot be classified (a computed string or token list)')
+        elif not pat.match(flat):
             res.bad(F('PATH-EMIT-HTML', f, f.node, 'emission order: ' + flat,
                       'every path must emit  <name attrs> then either the self-close marker, or > [snippet | text? children caret?] </name>',
                       details=['path : ' + s.show_trace()]))
@@ -770,10 +777,38 @@ class CopyLoopClient(PathClient):
         self.items = set()
         self.inloop = set(id(n) for n in ast.walk(loop))
         self.seen = {'conv': 0, 'acc': 0, 'charge': 0, 'step': 0, 'number': 0, 'break': 0}
+        self.budget_tests = {}        # source of a call that returns a comparison on the budget -> that comparison
+        self.opaque_budget = None
 
     def _is_conv(self, call):
         t = self.p.resolve_call(self.f, call)
         return isinstance(t, list) and t and all(x in self.conv for x in t)
+
+    def _budget_callee(self, call):
+        """a helper / method that does the budget bookkeeping: -> (number of `<x>.repeat_guard -= 1` it always executes, source
+        of the comparison on the budget it returns or None); None when the call is nothing of the kind or not straight-line"""
+        try:
+            t = self.p.resolve_call(self.f, call)
+        except Exception:
+            return None
+        if not (isinstance(t, list) and len(t) == 1):
+            return None
+        g = t[0]
+        body = [st for st in g.node.body if not (isinstance(st, ast.Expr) and isinstance(st.value, ast.Constant))]
+        if not any(isinstance(n, ast.Attribute) and n.attr == 'repeat_guard' for st in body for n in ast.walk(st)):
+            return None
+        charges, test = 0, None
+        for st in body:
+            if isinstance(st, ast.AugAssign) and isinstance(st.target, ast.Attribute) and st.target.attr == 'repeat_guard' \
+                    and isinstance(st.op, ast.Sub) and src_of(st.value) == '1':
+                charges += 1
+            elif isinstance(st, ast.Return) and st is body[-1] and isinstance(st.value, ast.Compare) and 'repeat_guard' in src_of(st.value):
+                test = src_of(st.value)
+            elif isinstance(st, ast.Return) and st is body[-1] and (st.value is None or isinstance(st.value, ast.Constant)):
+                pass
+            else:
+                return ('opaque', None)
+        return (charges, test)
 
     def _has_conv(self, e):
         return any(isinstance(n, ast.Call) and self._is_conv(n) for n in ast.walk(e))
@@ -795,6 +830,23 @@ class CopyLoopClient(PathClient):
         fn = call.func
         if isinstance(fn, ast.Attribute) and fn.attr in ('extend',) and src_of(fn.value) == self.result and call.args:
             return self._acc(s, call.args[0], call)
+        bc = self._budget_callee(call)
+        if bc is not None:
+            if bc[0] == 'opaque':
+                self.opaque_budget = src_of(call)
+                return s
+            if bc[1] is not None:
+                self.budget_tests[src_of(call)] = bc[1]
+            if bc[0]:
+                self.seen['charge'] += 1
+                if ph == 'idle':
+                    self.bad(call, src_of(call), 'the repeat budget is charged when a copy is started, not when it is completed: a copy that is still being built uses up the budget of the copies inside it', s)
+                return self.set_auto(s, (ph, num, ch + bc[0], stp))
+        return s
+
+    def on_test(self, it, s, expr, truth):
+        if isinstance(expr, ast.Call) and src_of(expr) in self.budget_tests:
+            return s.set(('cond', 'repeat_guard test: ' + src_of(expr)), truth)
         return s
 
     def _acc(self, s, operand, node):
@@ -1001,6 +1053,10 @@ def path_once(p, res):
         it_body = csn.body
         from ..absint import Interp, State
         fl = Interp(p, cs, c, body=it_body).run([State({})])
+        if c.opaque_budget:
+            c.violations.clear()
+            c.seen['charge'] = c.seen['charge'] or -1
+            res.undecided('copy loop: %s' % c.opaque_budget, 'the budget bookkeeping is done by a helper that is not straight-line: charging not decided')
         emit(res, 'PATH-ONCE', cs, c)
         for k in ('conv', 'acc', 'charge', 'step', 'number'):
             if c.seen[k] == 0:
@@ -1019,7 +1075,7 @@ def path_once(p, res):
         brk = [n for n in ast.walk(loop) if isinstance(n, (ast.Break, ast.Return))]
         pm = shape.parent_map(csn)
         for b in brk:
-            facts = [(fs, pol) for fs, pol in shape.implied(b, pm, root=loop) if 'repeat_guard' in fs]
+            facts = [(c.budget_tests.get(fs, fs), pol) for fs, pol in shape.implied(b, pm, root=loop) if 'repeat_guard' in fs or fs in c.budget_tests]
             nf_ = [_cmp_normal(fs if pol else 'not (%s)' % fs) for fs, pol in facts]
             if len(nf_) == 1 and nf_[0] is not None and nf_[0][1:] == ('<=', 0):
                 res.ok('stop exactly when the budget is used up: %s' % facts[0][0])
